@@ -23,7 +23,8 @@ META = {
                    "(spend after spend, failed attempt then affordable spend); every returned transaction is fed to the real "
                    "validate_non_coinbase_transaction_by_itself / _in_coinstate at the head.",
     "technique": "CrossHair symbolic execution of the wallet's spend builder and the transaction validators",
-    "bounds": "3 wallet-owned outputs over 2 wallet keys + foreign outputs, 2 successive calls, values with total <= MAX",
+    "bounds": "3 wallet-owned outputs over 2 wallet keys + foreign outputs, 2 successive calls (3 thorough), values with total <= MAX; variants: head after a "
+              "confirmed two-input consolidation; used output that exists only on P with requests at F then P",
     "outside": "wallets needing so many inputs that the transaction exceeds the 200,000-byte limit (~1977 inputs)",
     "stubs": ["ideal signing key in skepticoin.wallet.ecdsa", "stubs as C01"],
     "assumptions": ["sum of all unspent values <= documented maximum (C02)"],
